@@ -10,6 +10,7 @@ mod ctr;
 mod hist;
 mod norm;
 mod setup;
+mod walctr;
 
 use std::path::PathBuf;
 
